@@ -82,6 +82,7 @@ type Event struct {
 	Val    Val    // stored value / allocated reference
 	Typ    types.Type
 	Depth  int // inlining depth (0 = the verified function itself)
+	Res    *Val // calls with a contract: the result value
 }
 
 type retInfo struct {
